@@ -508,7 +508,11 @@ pub fn to_duration(num: &Number) -> Result<Duration, String> {
     let (ms, rem) = ms.div_rem(&Numeric::from(1));
     // rem is the fractional part in milliseconds
     let ns = &rem * &Numeric::from(1_000_000);
-    Ok(Duration::milliseconds(ms.to_int().unwrap()) + Duration::nanoseconds(ns.to_int().unwrap()))
+    // A float right at the limit can still round up past it.
+    let out_of_range = || format!("Implementation error: Number is out of range ({:?})", max);
+    let ms = ms.to_int().ok_or_else(out_of_range)?;
+    let ns = ns.to_int().ok_or_else(out_of_range)?;
+    Ok(Duration::milliseconds(ms) + Duration::nanoseconds(ns))
 }
 
 pub fn from_duration(duration: &Duration) -> Result<Number, String> {
